@@ -45,12 +45,31 @@ theorem hasType_nullTy {a : Ty} {v : Val} (ha : a.under = tyNull) (h : hasType v
   cases v with
   | null => rfl
   | prim id b =>
-    simp only [hasType, ha, tyNull, Bool.and_eq_true, beq_iff_eq, Ty.prim.injEq, bne_iff_ne] at h
+    have he : a.isEnum = false := by simp [Ty.isEnum, ha, tyNull]
+    have hr : a.isError = false := by simp [Ty.isError, ha, tyNull]
+    simp only [hasType, ha, he, hr, tyNull, Bool.and_false, Bool.or_false, Bool.and_eq_true, beq_iff_eq,
+      Ty.prim.injEq, bne_iff_ne] at h
     exact absurd h.1.symm h.2
   | recd vs => simp [hasType, Ty.isRecord, ha, tyNull] at h
   | list vs => simp [hasType, Ty.inner?, ha, tyNull] at h
   | map vs => simp [hasType, ha, tyNull] at h
   | union tag x => simp [hasType, Ty.isUnion, ha, tyNull] at h
+
+/-- a primitive-like value (primitive, or opaque enum / error body) has a primitive-like type -/
+theorem hasType_prim_isPrim {id : Nat} {b : Bytes} {a : Ty} (h : hasType (.prim id b) a = true) :
+    a.isPrim = true := by
+  simp only [hasType, Bool.or_eq_true, Bool.and_eq_true, beq_iff_eq] at h
+  unfold Ty.isPrim
+  rcases h with (h | h) | h
+  · rw [h.1]
+  · have := h.2; unfold Ty.isEnum at this; cases hu : a.under <;> simp_all
+  · have := h.2; unfold Ty.isError at this; cases hu : a.under <;> simp_all
+
+theorem isPrim_excludes {a : Ty} (h : a.isPrim = true) :
+    a.isUnion = false ∧ a.inner? = none ∧ a.isRecord = false := by
+  unfold Ty.isPrim at h
+  unfold Ty.isUnion Ty.inner? Ty.isRecord
+  cases hu : a.under <;> simp_all
 
 theorem mem_leavesRec : (fs : Fields) → (vs : Vals) → (l : Leaf) →
     (l ∈ leavesRec fs vs ↔ ∃ i n t, fs.get? i = some (n, t) ∧ l ∈ pre (.fld n) (leaves t (vs.getD i)))
